@@ -8,7 +8,9 @@ module for the duration of a `with` block and, for destinations that are object 
 the watched store roots:
 
   * logs the attempt,
-  * raises OSError(<drawn errno: EIO, ENOENT, EACCES, ENOSPC>) if the object id is in `fail`,
+  * raises OSError(<drawn errno: EIO, ENOENT, EACCES, ENOSPC>) if the object id is in `fail` - with
+    `partial=True` after leaving the first half of the bytes, unprotected, under the final name (what an
+    upload through a filesystem without atomic placement leaves behind when it dies half-way),
   * raises Abort (a BaseException: models "the process died here") at the k-th attempt,
   * otherwise performs the call, logs the completion and calls `monitor(root, oid)`.
 
@@ -28,12 +30,13 @@ class Abort(BaseException):
 
 
 class Injector:
-    def __init__(self, roots, fail=(), abort_at=None, monitor=None, fail_once=False, err="EIO"):
+    def __init__(self, roots, fail=(), abort_at=None, monitor=None, fail_once=False, err="EIO", partial=False):
         self.roots = [os.path.realpath(r) for r in roots]
         self.fail = set(fail)
         self.abort_at = abort_at
         self.monitor = monitor
         self.fail_once = fail_once
+        self.partial = partial
         self.err = err  # errno name of the injected failure (ENOENT gives a FileNotFoundError, ...)
         self.attempts = []   # (root, oid)
         self.completed = []  # (root, oid)
@@ -57,6 +60,18 @@ class Injector:
                     return r, rel[:2] + rel[3:]
         return None
 
+    @staticmethod
+    def _leave_half(src, dst):
+        try:
+            with open(src, "rb") as f:
+                data = f.read()
+            if os.path.lexists(dst):
+                os.unlink(dst)
+            with open(dst, "wb") as f:
+                f.write(data[: len(data) // 2])
+        except OSError:
+            pass
+
     def _wrap(self, name):
         orig = getattr(os, name)
         self._orig[name] = orig
@@ -75,6 +90,8 @@ class Injector:
                     self.faulted.append((root, oid))
                     if self.fail_once:
                         self.fail.discard(oid)
+                    if self.partial:
+                        self._leave_half(src, dst)
                     raise OSError(getattr(errno, self.err), f"injected upload failure for {oid}")
                 ret = orig(src, dst, *a, **kw)
                 self.completed.append((root, oid))
